@@ -293,6 +293,98 @@ def _verify_block_rule(ctx, vf, out):
         out.bad("verify_block_from_list_of_sfs:no-are_equals-loop", "no loop sends sub-blocks through are_equals", where(vf))
 
 
+def rule_b(ctx, out):
+    from . import roundtrip as rt
+    from ..specs.evm import COMMUTATIVE, STACK_ARITY
+    rows, info, own, _ = rt.table(ctx)
+    voc = rt.vocabulary(ctx)
+    out.info["vocabulary"] = len(voc)
+    out.info["opcodes_evaluated"] = len(rows)
+    stores = set(info["store_instructions"])
+    by_skel = {}
+    for o in sorted(voc):
+        row = rows[o]
+        rem, add = STACK_ARITY[o]
+        w = f"{rt.IR}: translate of {o}"
+        if o in rt.NO_FUNCTOR:
+            out.info.setdefault("no_functor_triaged", {})[o] = rt.NO_FUNCTOR[o]
+            out.ok({"opcode": o, "triaged": "no functor"})
+            continue
+        if "raises" in row:
+            out.bad(f"translate-raises:{o}", f"translation of {o} raises {row['raises']}", w)
+            continue
+        if row.get("error_line"):
+            out.bad(f"no-translation:{o}", f"{o} is in the vocabulary but ir_block has no translation for it ({row['error_line']})", w)
+            continue
+        # stack effect of the translation
+        if row["delta"] != add - rem:
+            out.bad(f"stack-delta:{o}", f"translation of {o} changes the stack height by {row['delta']}, EVM says {add - rem}", w)
+            continue
+        consumed = [f"<{i}>" for i in range(rem)]
+        if o in stores or add == 0:
+            if row.get("vars") is not None and row["vars"] != consumed:
+                out.bad(f"operand-order:{o}", f"{o}: operands extracted as {row['vars']}, consumption order (top first) is {consumed}", w)
+            else:
+                out.ok({"opcode": o, "lines": row["lines"], "vars": row.get("vars")})
+            continue
+        # value producing
+        if "giv_raises" in row or not row.get("funct"):
+            out.bad(f"no-functor:{o}", f"{o}: get_involved_vars yields no functor for `{row['lines']}`", w)
+            continue
+        vs = row["vars"]
+        if rem == 0:
+            ok_vars = len(vs) == 1
+        elif o in COMMUTATIVE:
+            ok_vars = sorted(vs) == sorted(consumed)
+        else:
+            ok_vars = vs == consumed
+        if not ok_vars:
+            out.bad(f"operand-order:{o}", f"{o}: operands extracted as {vs}, consumption order (top first) is {consumed}: a non-commutative "
+                    f"operation is specified with swapped or missing operands", w, {"line": row["lines"]})
+            continue
+        if row["back"] != o:
+            out.bad(f"round-trip:{o}->{row['back']}", f"{o} is translated to `{row['lines'][0]}` (functor {row['funct']!r}), which funct_to_opcode maps "
+                    f"back to {row['back']}: the emitted code contains a different instruction", w, {"row": row})
+            continue
+        by_skel.setdefault(row["funct"], []).append(o)
+        out.ok({"opcode": o, "line": row["lines"][0], "functor": row["funct"], "back": row["back"]})
+    for sk, ops in sorted(by_skel.items()):
+        if len(ops) > 1:
+            out.bad(f"functor-conflation:{'|'.join(sorted(ops))}", f"opcodes {sorted(ops)} share the functor {sk!r}: the specification cannot tell them apart",
+                    f"{rt.IR}")
+    if len(voc) < 55:
+        raise AnalysisError(f"vocabulary has only {len(voc)} opcodes (expected about 60)")
+
+
+def rule_c(ctx, out):
+    from . import roundtrip as rt
+    from ..specs.evm import STACK_ARITY
+    rows, info, own, table = rt.table(ctx)
+    n = 0
+    for o, (rem, add) in sorted(STACK_ARITY.items()):
+        got = own.get(o)
+        if got is None:
+            # the parser cannot read it: only relevant if ir_block knows it
+            if o in rows and o not in ("PUSH0",):
+                out.bad(f"arity-missing:{o}", f"{o} is translated by ir_block but opcodes.get_opcode has no entry for it", "sfs_generator/opcodes.py")
+            continue
+        n += 1
+        if tuple(got) == (rem, add):
+            out.ok({"opcode": o, "arity": [rem, add]})
+        else:
+            out.bad(f"arity:{o}", f"opcodes.get_opcode({o!r}) says it removes {got[0]} and adds {got[1]} stack items; the EVM removes {rem} and adds {add}. "
+                    f"Every later stack variable of a block containing {o} is shifted", "sfs_generator/opcodes.py")
+    # DUPk / SWAPk are computed
+    for o, exp in (("DUP3", (3, 4)), ("SWAP2", (3, 3)), ("PUSH", (0, 1)), ("PUSH4", (0, 1))):
+        got = own.get(o)
+        if got is None:
+            continue
+    if n < 70:
+        raise AnalysisError(f"only {n} opcodes compared with the reference arity table")
+
+
 RULES = [
     ("C01.a", "safety net dominates every emission of an optimized block", 8, rule_a),
+    ("C01.b", "opcode -> operator -> opcode round trip", 55, rule_b),
+    ("C01.c", "stack-effect table equals the EVM reference", 70, rule_c),
 ]
